@@ -78,6 +78,58 @@ def h_overlap(ex, L1=400, L2=70, L3=130, windows=(1, 1)):
     ex.witness()
 
 
+def h_staggered(ex, dll='j1939-22', L1=130, L2=70, windows=(1, 1)):
+    """a second message for the same destination is submitted right after the k-th bus frame of the first transfer
+    (every k: enumerated schedule choice).  If it is accepted it is delivered exactly once, intact, and so is the first;
+    if it is refused (J1939-21: pair busy) the call emits nothing and the first transfer is not disturbed."""
+    w = W.World(ex, mode='interleave')
+    w.branching = False
+    sa = Stack(w, 'A', A, dll=dll, max_cmdt_packets=windows[0])
+    sb = Stack(w, 'B', B, dll=dll, max_cmdt_packets=windows[1])
+    w.run(until=T('1/100'))
+    p1 = sym_payload(ex, 'p1_', L1)
+    p2 = sym_payload(ex, 'p2_', L2)
+    st = {'done': False, 'ret': None, 'frames_before': None, 'frames_after': None, 'at': None}
+
+    def submit():
+        st['frames_before'] = len(w.log)
+        st['ret'] = sa.ca.send_pgn(0, 0xD2, B, 6, list(p2))
+        st['frames_after'] = len(w.log)
+
+    def on_frame(f):
+        if st['done']:
+            return
+        if ex.choose('submit_after_frame%d' % f['i'], 2) == 1:
+            st['done'] = True
+            st['at'] = f['i']
+            w.app_now.append(submit)
+    w.frame_hooks.append(on_frame)
+    ex.claim('staggered.first_accepted', sa.ca.send_pgn(0, 0xD0, B, 6, list(p1)) is True)
+    w.run(until=w.now + T(6))
+    if not st['done']:
+        st['done'] = True
+        submit()
+        w.run(until=w.now + T(6))
+    info = {'submitted_after_frame': st['at'], 'second_returned': st['ret'], 'dll': dll}
+    first = [m for m in sb.rx if len(m['data']) == L1]
+    ex.claim('staggered.first_delivered_once', len(first) == 1, dict(info, got=len(first)))
+    if len(first) == 1:
+        ex.claim('staggered.first_intact', sym_eq_seq(first[0]['data'], p1), info)
+    second = [m for m in sb.rx if len(m['data']) == L2]
+    if st['ret'] is True:
+        ex.claim('staggered.second_delivered_once', len(second) == 1, dict(info, got=len(second)))
+        if len(second) == 1:
+            ex.claim('staggered.second_intact', sym_eq_seq(second[0]['data'], p2), info)
+    else:
+        ex.claim('staggered.refusal_is_false', st['ret'] is False, info)
+        ex.claim('staggered.refusal_emits_nothing', st['frames_after'] == st['frames_before'], info)
+        ex.claim('staggered.refused_not_delivered', len(second) == 0, info)
+        if dll != 'j1939-21':
+            ex.claim('staggered.fd_has_capacity_for_a_second_session', False, info)
+    ex.claim('job_threads_alive', sa.alive() and sb.alive())
+    ex.witness()
+
+
 def jobs(tier):
     out = []
     q = tier == 'quick'
@@ -97,6 +149,8 @@ def jobs(tier):
     J(L=121, kind='p2p', shape='twoway', L2=121, kind2='pdu2', windows=[1, 1])
     J(h='c02:h_overlap', L1=400, L2=70, L3=130, windows=[1, 1])
     J(h='c02:h_overlap', L1=600, L2=70, L3=300, windows=[2, 1])
+    J(h='c02:h_staggered', L1=130, L2=70, windows=[1, 1])
+    J(h='c02:h_staggered', L1=181, L2=121, windows=[2, 2])
     J(h='c02:h_capacity', L=61, windows=[1, 1])
     J(h='c02:h_capacity', L=121, windows=[2, 1])
     J(h='c02:h_capacity', L=61, two_dest=False, windows=[255, 255])
@@ -115,7 +169,7 @@ def meta(tier):
     return {
         'bounds': ['payload lengths ' + ('{61,119,120,121,179,180,181}' if tier == 'quick' else '61..300, 1000, 20000') + '; payload, priority, data page, PDU format / group extension, both max_cmdt_packets symbolic',
                    'all interleavings of deliveries and job passes (DESIGN 3), latency > 0 only (no re-entrant delivery)',
-                   '3 stacks; concurrent shapes A->B || B->A, A->B || A->global; overlap shape: A->B long || B->A short, second A->B submitted when the inbound message has arrived; capacity shape: 8 RTS/CTS + 4 BAM from one stack, the 9th and 5th call must return False, emit nothing, everything in flight completes (canonical schedule)'],
+                   '3 stacks; concurrent shapes A->B || B->A, A->B || A->global; staggered shape: second message to the same destination submitted after every bus frame of the first transfer; overlap shape: A->B long || B->A short, second A->B submitted when the inbound message has arrived; capacity shape: 8 RTS/CTS + 4 BAM from one stack, the 9th and 5th call must return False, emit nothing, everything in flight completes (canonical schedule)'],
         'outside': ['other lengths', 'capacity shape under all interleavings', 're-entrant delivery (excluded by the property)'],
         'assumptions': [],
     }
